@@ -111,6 +111,16 @@ def run(ctx):
     for v in ctx.violations[nv:]:
         v["rule"] = "C14.O9(" + v["rule"] + ")"
         v["key"] = "C14.O9|" + v["key"]
+    # a `go` whose clock arithmetic panics (or wraps into a budget of centuries) gets no bestmove: the arithmetic discipline of C13
+    from . import p13, hir as _hir
+    before, nv = len(ctx.instances), len(ctx.violations)
+    gfn = F.fn(p13.GO)
+    p13.a1(ctx, F, gfn, gfn["hir"]["body"], _hir.Sym(_hir.Env(gfn["hir"], F), F, depth=40))
+    for i in ctx.instances[before:]:
+        i["rule"] = "C14.O10(" + i["rule"] + ")"
+    for v in ctx.violations[nv:]:
+        v["rule"] = "C14.O10(" + v["rule"] + ")"
+        v["key"] = "C14.O10|" + v["key"]
 
 
 def count_paths(cfg, hits):
